@@ -111,6 +111,7 @@ type ReqOpts struct {
 	Restart      bool // allow frequency == timeout: the next batch starts in the block in which this one expires
 	OneOutput    bool // stored responses all carry a well-formed output (their shape only matters to callbacks)
 	OnlyState    int  // -1: any state
+	Huge         bool // model the SDK's 255-bit range checks; the state holds what a chain can hold (amounts < 2^127)
 }
 
 // ctxFields draws the lifecycle-independent fields of a context within the CTX invariant.
@@ -171,6 +172,11 @@ func NewReqScene(o ReqOpts) *ReqScene {
 	noMinAssumed = o.AnyDeposit
 	s.K, s.Ctx = vf.Env()
 	k := s.K
+	if o.Huge {
+		hugeMode = true
+		vf.CheckOverflow()
+		vf.Assume(k.MinDeposit(s.Ctx).AmountOf(Denom).LT(two127()))
+	}
 	s.Ctx, s.H, s.Now = Block(s.Ctx)
 	ctx := s.Ctx
 	Define(k, ctx, Svc)
@@ -189,11 +195,11 @@ func NewReqScene(o ReqOpts) *ReqScene {
 		s.Provs[i] = vf.Addr("prov"+digit(i), 20)
 	}
 	distinct(s.Provs...)
-	s.DepAcc0 = vf.Amount("depositRest")
+	s.DepAcc0 = inState(vf.Amount("depositRest"))
 	s.Vol0 = make([]uint64, s.N)
 	s.Earned0 = make([]sdk.Int, s.N)
 	ownerEarned := sdk.ZeroInt()
-	s.Esc0 = vf.Amount("escrowRest")
+	s.Esc0 = inState(vf.Amount("escrowRest"))
 	for i := 0; i < s.N; i++ {
 		s.Earned0[i] = sdk.ZeroInt()
 		if o.AllBound || vf.Bool("bound"+digit(i)) {
@@ -218,10 +224,14 @@ func NewReqScene(o ReqOpts) *ReqScene {
 				s.Vol0[i] = vf.Uint64("vol" + digit(i))
 				vf.Assume(s.Vol0[i] < uint64(maxH))
 				k.SetRequestVolume(ctx, s.Consumer, Svc, s.Provs[i], s.Vol0[i])
+				// another consumer's history with the same provider is its own record
+				another := sdk.AccAddress("another-consumer____")
+				vf.Assume(!s.Consumer.Equals(another))
+				k.SetRequestVolume(ctx, another, Svc, s.Provs[i], s.Vol0[i]+7)
 			}
 			// provider 0 may or may not hold earnings; the others always do (they serve as the frame)
 			if o.Earned && (i > 0 || vf.Bool("hasEarned"+digit(i))) {
-				s.Earned0[i] = vf.Amount("earned" + digit(i))
+				s.Earned0[i] = inState(vf.Amount("earned" + digit(i)))
 				vf.Assume(s.Earned0[i].IsPositive())
 				k.SetEarnedFees(ctx, s.Provs[i], coins(s.Earned0[i]))
 				ownerEarned = ownerEarned.Add(s.Earned0[i])
@@ -245,13 +255,13 @@ func NewReqScene(o ReqOpts) *ReqScene {
 		k.SetRequestContext(ctx, s.ID, s.Pre)
 	}
 
-	s.BalC0 = vf.Amount("balConsumer")
+	s.BalC0 = inState(vf.Amount("balConsumer"))
 	vf.SetBalance(s.Consumer, s.BalC0)
 	vf.SetModuleBalance(types.RequestAccName, s.Esc0)
 	vf.SetModuleBalance(types.DepositAccName, s.DepAcc0)
-	s.Collector0 = vf.Amount("collector")
+	s.Collector0 = inState(vf.Amount("collector"))
 	vf.SetModuleBalance("fee_collector", s.Collector0)
-	s.Supply0 = vf.Amount("supplyRest").Add(s.DepAcc0).Add(s.Esc0).Add(s.BalC0)
+	s.Supply0 = inState(vf.Amount("supplyRest")).Add(s.DepAcc0).Add(s.Esc0).Add(s.BalC0)
 	vf.SetSupply(s.Supply0)
 	return s
 }
@@ -289,7 +299,7 @@ func (s *ReqScene) addBatch(o ReqOpts) {
 		var fee sdk.Coins
 		s.Fee[j] = sdk.ZeroInt()
 		if !s.Pre.SuperMode {
-			s.Fee[j] = vf.Amount("fee" + digit(j))
+			s.Fee[j] = inState(vf.Amount("fee" + digit(j)))
 			vf.Assume(s.Fee[j].IsPositive())
 			fee = coins(s.Fee[j])
 		}
